@@ -21,7 +21,7 @@ address const SA = address(address_v4(0x0a000002));
 
 enum { K_TIMER, K_CONNECT, K_REFUSED, K_READ, K_WAITREAD, K_WRITE, K_ACCEPT0, K_ACCEPT1, K_ACCEPT2,
 	K_URECVFROM, K_URECV, K_UWAITR, K_UWAITW, K_RESOLVE, NKIND };
-enum { I_NONE, I_CANCEL, I_CLOSE, I_DESTROY, I_SUPERSEDE, I_THROW, NINT };
+enum { I_NONE, I_CANCEL, I_CLOSE, I_DESTROY, I_SUPERSEDE, I_THROW, I_SUPERSEDE_OTHER, NINT };
 
 struct rec
 {
@@ -140,6 +140,18 @@ void intervene()
 		case I_THROW:
 			g_throw_next = true;
 			break;
+		case I_SUPERSEDE_OTHER:
+		{
+			// a new operation of the same direction but of another form (read <-> wait-for-read, the accept overloads)
+			int const other[NKIND] = { K_TIMER, K_CONNECT, K_REFUSED, K_WAITREAD, K_READ, K_WRITE, K_ACCEPT2, K_ACCEPT0, K_ACCEPT1,
+				K_UWAITR, K_URECVFROM, K_URECVFROM, K_UWAITW, K_RESOLVE };
+			int const k = g_kind;
+			if (other[k] == k) { if (k == K_RESOLVE) CALL(g_res->cancel()); else if (k == K_TIMER) CALL(g_timer->cancel()); else if (k == K_UWAITW) start_op(1); else CALL(g_cli->cancel(ec)); break; }
+			g_kind = other[k];
+			start_op(1);
+			g_kind = k;
+			break;
+		}
 		default: break;
 	}
 }
